@@ -49,9 +49,9 @@ Proof.
   intros J. pose proof (reach_distinct sl (JS_reach _ _ _ J)) as SD. destruct (reach_sorted NS sl ltac:(lia) (JS_reach _ _ _ J)) as [Ln _].
   unfold try_recover, recover_inner. pose proof (two_newest_top2 sl SD) as T.
   destruct (two_newest sl) as [[[ni nh]|] [[si sh]|]]; try discriminate.
-  destruct (is_awip nh && negb (kind_is_fw nh) && is_awip sh && kind_is_fw sh && (hsize nh =? hsize sh)%N && fits (hsize sh) (hcount sh)) eqn:C; [|discriminate].
+  destruct (is_awip nh && negb (kind_is_fw nh) && is_awip sh && kind_is_fw sh && (hsize nh =? hsize sh)%N && fits (hsize sh) (hcount sh) && (hcount nh <=? 2048)%N) eqn:C; [|discriminate].
   intros H. inversion H; subst f p sl'. clear H.
-  apply andb_prop in C. destruct C as [C _]. apply andb_prop in C. destruct C as [C _]. apply andb_prop in C. destruct C as [C C4].
+  apply andb_prop in C. destruct C as [C _]. apply andb_prop in C. destruct C as [C _]. apply andb_prop in C. destruct C as [C _]. apply andb_prop in C. destruct C as [C C4].
   apply andb_prop in C. destruct C as [C C3]. apply andb_prop in C. destruct C as [C1 C2].
   cbn [Top2] in T. destruct T as (I & M & Jn & Nq & K).
   assert (An : awip nh) by (unfold awip; unfold is_awip in C1; destruct (total_status nh); try discriminate; reflexivity).
